@@ -223,7 +223,15 @@ func main() {
 		}
 		// the old-share partial arrives during round 1, or at the very moment of V's tick of round 2 (the scheduler decides
 		// whether before or after V's own partial, the sync and the switch)
-		for _, early := range [][]bnet.Item{nil, {oldAt(1, 1)}, {oldAt(1, 2)}, {oldAt(1, 1), oldAt(2, 2)}} {
+		// ... or right after V's own (re-signed) partial of round 1 at that tick, with a sync peer that answers only after
+		// it (the old-share partial of round 2 is then the last packet the aggregator sees before the switch)
+		oldAfterOwn := func(m int) bnet.Item {
+			it := oldAt(m, 2)
+			it.Label = fmt.Sprintf("old-share-partial(m%d,r2)-after-own-partial-2-before-sync-answer", m)
+			it.AfterSigned, it.ReleaseSync = 2, true
+			return it
+		}
+		for _, early := range [][]bnet.Item{nil, {oldAt(1, 1)}, {oldAt(1, 2)}, {oldAt(1, 1), oldAt(2, 2)}, {oldAfterOwn(4)}} {
 			for kNew := 1; kNew <= 3; kNew++ {
 				sq := append([]bnet.Item{}, early...)
 				for m := 1; m <= kNew; m++ {
@@ -232,7 +240,7 @@ func main() {
 				seqs = append(seqs, sq)
 			}
 		}
-		h := &bnet.VAdv{Keys: k, Backend: "memdb", Seqs: seqs, Rounds: 3, SyncHeight: 1, Transition: nk, TransitionRound: 2}
+		h := &bnet.VAdv{Keys: k, Backend: "memdb", Seqs: seqs, Rounds: 3, SyncHeight: 1, Transition: nk, TransitionRound: 2, SyncGated: true}
 		runT := func(devs []vrt.Dev, labels bool) *explore.Exec {
 			r := h.Run(devs, labels)
 			x := h.Judge(r, "c03")
